@@ -273,6 +273,21 @@ def scale_scan(case, ctx):
             iso.append(do(p, s_))
     with lentil_call("C17.scan.sequence", "the factors one after the other"):
         seq = [do(p, s_) for s_ in scales]
+    # ... and each factor right after a SIBLING plane (one row or one column fewer, everything else alike) was rescaled by
+    # the same factor: for s < 1 the sibling often maps to the same output shape
+    sib_shape = (m - 1, n) if case["seed"] % 2 else (m, n - 1)
+    with lentil_call("C17.scan.sibling", f"a {sib_shape} sibling plane rescaled first"):
+        sibling = lentil.Pupil(amplitude=amp[:sib_shape[0], :sib_shape[1]].copy(), opd=opd[:sib_shape[0], :sib_shape[1]].copy(),
+                               mask=None if mask is None else mask[:, :sib_shape[0], :sib_shape[1]].copy(), pixelscale=ps, focal_length=5.0)
+        sib = []
+        for s_ in scales:
+            do(sibling, s_)
+            sib.append(do(p, s_))
+    for i, s_ in enumerate(scales):
+        for name, a, b in zip(("amplitude", "opd", "mask"), iso[i][:3], sib[i][:3]):
+            if a.shape != b.shape or not np.array_equal(a, b):
+                raise Violation("C17.scan.history", f"rescale by {s_!r} of a {(m, n)} plane right after a {sib_shape} sibling plane was rescaled by "
+                                                    f"the same factor gives another {name} than the same call after an unrelated rescale")
     P0 = float(np.sum(amp ** 2))
     for i, s_ in enumerate(scales):
         for name, a, b in zip(("amplitude", "opd", "mask"), iso[i][:3], seq[i][:3]):
